@@ -9,7 +9,7 @@ from props.C04 import call_results, agg_field_operands, TRK, per_element_key_che
 
 META = {
     "explanation": "Decides: (1) in validate_and_store_scratchpad_record the store is cut by content-derived key == presented key, by "
-                   "`new.count() > local.count()` (strict) whenever a local copy exists, and by scratchpad.is_valid(); is_valid signs counter "
+                   "`new.count() > local.count()` (strict) whenever a local copy exists, and by scratchpad.is_valid(); is_valid verifies counter "
                    "and data hash; (2) the transactions persisted all pass the key filter and the Transaction::verify filter (no dataflow from "
                    "the input to the stored value bypasses either) and are unioned with the locally held set through a BTreeSet; (3) a register "
                    "is stored only after register.verify() and, when a local copy exists, as local.verified_merge(incoming); (4) check-then-act: "
@@ -27,10 +27,12 @@ SERIALISERS = ["*sync::mutex::Mutex<T>::lock", "*Mutex::lock", "*Semaphore::acqu
                "*Mutex::lock_owned", "*Mutex::try_lock"]
 
 
-def run(R):
+def merge_rules(R, pfx="C07"):
+    """How each mutable kind is validated, compared with / merged into the local copy and stored (shared with C09, where the
+    same functions are what replication between neighbours converges through)."""
     F = R.F
     # (1) scratchpad
-    pad = R.body("C07.pad", PV + "validate_and_store_scratchpad_record::{closure#0}")
+    pad = R.body(pfx + ".pad", PV + "validate_and_store_scratchpad_record::{closure#0}")
     if pad is not None:
         prep(pad)
 
@@ -61,8 +63,8 @@ def run(R):
             return tt.closure(out)
         counter = CmpGuard(local_counts, new_counts, "Lt", "local.count() < new.count() (strictly higher)", close=False)
         no_local = CallGuard([NET + "get_local_record"], ("Ok", "None"), "no local copy")
-        R.gate("C07.pad.counter", pad, CallSink(PUT), [[counter, no_local]], descr="scratchpad stored only if no local copy or strictly higher counter")
-        R.gate_here_or_in_callers("C07.pad.sig", PV + "validate_and_store_scratchpad_record::{closure#0}", PV + "validate_and_store_scratchpad_record",
+        R.gate(pfx + ".pad.counter", pad, CallSink(PUT), [[counter, no_local]], descr="scratchpad stored only if no local copy or strictly higher counter")
+        R.gate_here_or_in_callers(pfx + ".pad.sig", PV + "validate_and_store_scratchpad_record::{closure#0}", PV + "validate_and_store_scratchpad_record",
                                   CallSink(PUT), CallGuard([PAD + "::is_valid"], ("true",), "scratchpad.is_valid()"),
                                   "scratchpad stored only with a valid owner signature")
         # the local copy compared is the one stored under the same key
@@ -75,11 +77,11 @@ def run(R):
         src = ta.closure(PL(pad, 1))
         ok2 = bool(vals) and all(op_local(o) in src for _, _, o in vals)
         if not (ok and ok2):
-            R.viol("C07.pad.same", "pad-identity", "the counter check / the stored value do not concern the scratchpad presented under this key", pad, pad.lines[0])
-        R.inst("C07.pad.same", "K6 flows-to", "local copy read under the content-derived key; stored value is the validated scratchpad", len(glr) + len(vals), ok and ok2)
+            R.viol(pfx + ".pad.same", "pad-identity", "the counter check / the stored value do not concern the scratchpad presented under this key", pad, pad.lines[0])
+        R.inst(pfx + ".pad.same", "K6 flows-to", "local copy read under the content-derived key; stored value is the validated scratchpad", len(glr) + len(vals), ok and ok2)
 
     # (2) transactions
-    tx = R.body("C07.tx", PV + "validate_merge_and_store_transactions::{closure#0}")
+    tx = R.body(pfx + ".tx", PV + "validate_merge_and_store_transactions::{closure#0}")
     if tx is not None:
         prep(tx)
         vals = agg_field_operands(tx, "libp2p_kad::record::Record", "value")
@@ -87,9 +89,9 @@ def run(R):
         inp = PL(tx, 1)  # the `transactions` parameter
         full = ta.closure(inp)
         # key filter: same per-element rule as C04 (filter/retain closure or gated loop), reported under C07's name
-        okk, kept_key = per_element_key_check(R, F, tx, prefix="C07.tx.key")
+        okk, kept_key = per_element_key_check(R, F, tx, prefix=pfx + ".tx.key")
         # verify filter
-        formv, kept_ver = R.per_element_keep("C07.tx.verify", tx, lambda form: CallGuard([TX + "::verify"], ("true",), "transaction.verify()"),
+        formv, kept_ver = R.per_element_keep(pfx + ".tx.verify", tx, lambda form: CallGuard([TX + "::verify"], ("true",), "transaction.verify()"),
                                              "a transaction is kept only if its owner signature verifies")
         ok = bool(vals) and formv in ("closure", "loop") and okk
         detail = {"key_kept": len(kept_key), "verify_kept": len(kept_ver)}
@@ -99,28 +101,31 @@ def run(R):
             for nm, stops in (("verify", kept_ver), ("key", kept_key)):
                 if not stops or vloc in ta.closure(inp, stop_at=stops):
                     ok = False
-                    R.viol("C07.tx.filters", "bypass:%s" % nm, "a transaction can reach the stored record without passing the %s filter" % nm, tx, vals[0][1]["l"])
+                    R.viol(pfx + ".tx.filters", "bypass:%s" % nm, "a transaction can reach the stored record without passing the %s filter" % nm, tx, vals[0][1]["l"])
             if vloc not in full:
                 ok = False
-                R.viol("C07.tx.filters", "input-lost", "the validated input does not reach the stored record", tx, tx.lines[0])
-        R.inst("C07.tx.filters", "K6 flows-to (cut)", "every stored transaction from the input passes the key filter and the verify filter", len(vals), ok, detail)
+                R.viol(pfx + ".tx.filters", "input-lost", "the validated input does not reach the stored record", tx, tx.lines[0])
+        R.inst(pfx + ".tx.filters", "K6 flows-to (cut)", "every stored transaction from the input passes the key filter and the verify filter", len(vals), ok, detail)
         # union with the local set through a BTreeSet
         loc = call_results([PV + "get_local_transactions"])(tx)
         ext = [b for b in tx.blocks if b["term"]["k"] == "call" and (b["term"]["ncallee"] or "").endswith("BTreeSet<T, A> as core::iter::traits::collect::Extend<T>>::extend")]
         oku = bool(ext) and bool(loc) and all(op_local(b["term"]["args"][1]) in ta.closure(loc) for b in ext) and bool(vals) and op_local(vals[0][2]) in ta.closure(loc)
         if not oku:
-            R.viol("C07.tx.union", "local-union", "the stored set is not the union (BTreeSet::extend) of validated input and get_local_transactions", tx, tx.lines[0])
-        R.inst("C07.tx.union", "K6 flows-to", "stored = validated ∪ local (BTreeSet, order/duplication independent)", len(ext), oku)
-        TXV = R.body("C07.tx.sig", TX + "::verify")
+            R.viol(pfx + ".tx.union", "local-union", "the stored set is not the union (BTreeSet::extend) of validated input and get_local_transactions", tx, tx.lines[0])
+        R.inst(pfx + ".tx.union", "K6 flows-to", "stored = validated ∪ local (BTreeSet, order/duplication independent)", len(ext), oku)
+        TXV = R.body(pfx + ".tx.sig", TX + "::verify")
         if TXV is not None:
-            R.must_call("C07.tx.sig", TX + "::verify", ["blsttc::PublicKey::verify"], "Transaction::verify checks the owner's BLS signature")
+            R.must_call(pfx + ".tx.sig", TX + "::verify", ["blsttc::PublicKey::verify"], "Transaction::verify checks the owner's BLS signature")
 
-    transaction_rules(R, "C07")
+    transaction_rules(R, pfx)
+    # what "a valid owner signature" means for a scratchpad: owner key over counter ‖ data hash, false without a signature
+    from props.C15 import is_valid_rules
+    is_valid_rules(R, pfx + ".pad")
     # (3) register
-    rv = R.body("C07.reg", PV + "register_validation::{closure#0}")
+    rv = R.body(pfx + ".reg", PV + "register_validation::{closure#0}")
     if rv is not None:
         some = AggSink("core::option::Option", "Some", dest_ty="SignedRegister")
-        R.gate("C07.reg.verify", rv, some, [[CallGuard([SR + "::verify"], ("Ok",), "register.verify() is Ok")]],
+        R.gate(pfx + ".reg.verify", rv, some, [[CallGuard([SR + "::verify"], ("Ok",), "register.verify() is Ok")]],
                descr="register_validation yields a register to store only after verify()", min_sinks=2)
         prep(rv)
         g = cfg_of(rv)
@@ -136,14 +141,14 @@ def run(R):
             starts = tuple(d for _, d in tr.accept)
             region = g.reach(starts)
             local_somes = [b for b in somes if b in region and b not in g.reach(tuple(d for _, d in tr.reject))]
-            okm = R.gate("C07.reg.merge", rv, some,
+            okm = R.gate(pfx + ".reg.merge", rv, some,
                          [[CallGuard([SR + "::verified_merge"], ("Ok",), "local.verified_merge(incoming) is Ok")]],
                          descr="with a local copy, the register stored is local.verified_merge(incoming)", starts=starts) if local_somes else False
             if not local_somes:
-                R.viol("C07.reg.merge", "merge-missing", "no merged register is produced when a local copy exists", rv, rv.lines[0])
+                R.viol(pfx + ".reg.merge", "merge-missing", "no merged register is produced when a local copy exists", rv, rv.lines[0])
         else:
-            R.viol("C07.reg.merge", "present-branch", "register_validation does not branch on present_locally", rv, rv.lines[0])
-    vsr = R.body("C07.reg.store", PV + "validate_and_store_register::{closure#0}")
+            R.viol(pfx + ".reg.merge", "present-branch", "register_validation does not branch on present_locally", rv, rv.lines[0])
+    vsr = R.body(pfx + ".reg.store", PV + "validate_and_store_register::{closure#0}")
     if vsr is not None:
         prep(vsr)
         ta = Taint(vsr, through="all")
@@ -151,11 +156,16 @@ def run(R):
         vals = agg_field_operands(vsr, "libp2p_kad::record::Record", "value")
         ok = bool(vals) and all(op_local(o) in src for _, _, o in vals)
         if not ok:
-            R.viol("C07.reg.store", "stored-register", "the register persisted is not the one register_validation returned", vsr, vsr.lines[0])
-        R.inst("C07.reg.store", "K6 flows-to", "persisted register = result of register_validation", len(vals), ok)
-        R.gate("C07.reg.store.gate", vsr, CallSink(PUT), [[CallGuard([PV + "register_validation"], ("Ok", "Some"), "register_validation is Ok(Some(_))")]],
+            R.viol(pfx + ".reg.store", "stored-register", "the register persisted is not the one register_validation returned", vsr, vsr.lines[0])
+        R.inst(pfx + ".reg.store", "K6 flows-to", "persisted register = result of register_validation", len(vals), ok)
+        R.gate(pfx + ".reg.store.gate", vsr, CallSink(PUT), [[CallGuard([PV + "register_validation"], ("Ok", "Some"), "register_validation is Ok(Some(_))")]],
                descr="register stored only when validation produced an update")
 
+
+
+def run(R):
+    F = R.F
+    merge_rules(R, "C07")
     # (3b) a client update of a mutable kind is acknowledged only with the verdict of its validate-and-store function
     import tables as T
     from props.C03 import KIND, STORE_FNS
